@@ -397,12 +397,67 @@ pub fn cli(ctx: &Ctx) -> Stats {
             st.class("window far longer than every record");
         }
         let mode = if idx % 2 == 0 { MinMode::S2m } else { MinMode::M2s };
-        let threads = rng.usize(0, 16);
+        let mut threads = rng.usize(0, 16);
+        let mut recs = recs;
+        if idx % 16 == 5 {
+            // (a named-pipe case with a listing of several hundred kilobytes written by several workers)
+            let n = rng.usize(2500, 4000);
+            recs = (0..n).map(|i| Rec { id: format!("p{}", i), desc: None, seq: gen_seq(&mut rng, SeqClass::Uniform, 80 + i % 70, true) }).collect();
+            threads = rng.usize(2, 16);
+        }
         let sc = Scratch::new(ctx, "c10c");
         let inp = sc.write("in.fa", &ser::to_fasta(&recs, &SerOpts::plain()));
         let outp = sc.path("out.txt");
         let args = sv(&["min", "-i", &inp, "-o", &outp, "-m", &m.to_string(), "-w", &w.to_string(), "-p", if mode == MinMode::S2m { "s2m" } else { "m2s" }, "-t", &threads.to_string()]);
+        // one case in eight: the listing goes to a named pipe that a reader drains (writes to a pipe are only atomic up
+        // to 4 KiB and arrive in whatever pieces the writers issue them — a regular file hides both)
+        let fifo = idx % 8 == 5;
+        let mut fifo_reader = None;
+        let fifo_done = std::sync::Arc::new(std::sync::atomic::AtomicBool::new(false));
+        if fifo {
+            let _ = std::fs::remove_file(&outp);
+            let c = std::ffi::CString::new(outp.clone()).unwrap();
+            if unsafe { libc::mkfifo(c.as_ptr(), 0o644) } != 0 {
+                st.inconclusive("mkfifo failed".into());
+                return;
+            }
+            // opened read+write by the harness: never blocks, and the pipe stays alive whatever the tool does
+            let fd = unsafe { libc::open(c.as_ptr(), libc::O_RDWR | libc::O_NONBLOCK) };
+            if fd < 0 {
+                st.inconclusive("cannot open the fifo".into());
+                return;
+            }
+            let done = fifo_done.clone();
+            fifo_reader = Some(std::thread::spawn(move || {
+                let mut out = Vec::new();
+                let mut buf = vec![0u8; 1 << 16];
+                loop {
+                    let n = unsafe { libc::read(fd, buf.as_mut_ptr() as *mut libc::c_void, buf.len()) };
+                    if n > 0 {
+                        out.extend_from_slice(&buf[..n as usize]);
+                    } else if done.load(std::sync::atomic::Ordering::Relaxed) {
+                        // the tool has exited: one more look, then stop
+                        let n = unsafe { libc::read(fd, buf.as_mut_ptr() as *mut libc::c_void, buf.len()) };
+                        if n > 0 {
+                            out.extend_from_slice(&buf[..n as usize]);
+                            continue;
+                        }
+                        break;
+                    } else {
+                        std::thread::sleep(std::time::Duration::from_micros(200));
+                    }
+                }
+                unsafe { libc::close(fd) };
+                out
+            }));
+            st.class("output is a named pipe");
+        }
         let res = run_cli(ctx, &args, None, &CliLimits::default());
+        fifo_done.store(true, std::sync::atomic::Ordering::Relaxed);
+        let fifo_data = fifo_reader.map(|h| h.join().unwrap_or_default());
+        if fifo {
+            let _ = std::fs::remove_file(&outp);
+        }
         let total_runs: usize = recs.iter().map(|r| ref_runs(&r.seq, w, m).len()).sum();
         st.case(total_runs > 0, mix(idx) ^ hash_bytes(args.join(" ").as_bytes()));
         let case = || Json::obj().set("argv", Json::s(args.join(" "))).set("records", super::oligo::recs_json(&recs));
@@ -416,7 +471,10 @@ pub fn cli(ctx: &Ctx) -> Stats {
             st.violate(sig, format!("min failed: {}", res.describe()), case());
             return;
         }
-        let data = std::fs::read(&outp).unwrap_or_default();
+        let data = match fifo_data {
+            Some(d) => d,
+            None => std::fs::read(&outp).unwrap_or_default(),
+        };
         let r = match mode {
             MinMode::S2m => check_s2m(&data, &recs, w, m),
             MinMode::M2s => check_m2s(&data, &recs, w, m),
